@@ -716,8 +716,8 @@ pub fn main(ctx: &Ctx) -> i32 {
         std::fs::remove_dir_all(&work).ok();
         return 1;
     }
-    let n_plain = ctx.tier.pick(10u32, 80u32);
-    let n_kill = ctx.tier.pick(9u32, 60u32);
+    let n_plain = ctx.tier.pick(10u32, 40u32);
+    let n_kill = ctx.tier.pick(9u32, 40u32);
     let w2 = work.clone();
     let fail = run_cases(ctx, &stats, (|| case_strategy(false)) as fn() -> _, n_plain, 5, 4, move |c| run_case(c, &w2, seed));
     if fail.is_some() {
